@@ -107,6 +107,12 @@ def gen_history(rng, judge, quiet):
             op["rules"] = gen_crash_rules(rng, op["cmd"])
         else:
             op["plan"], op["gc"] = gen_plan(rng, "o%d" % i, quiet or rng.chance(1, 2))
+            if kind in ("run", "compile", "compile_dep") and not quiet and rng.chance(1, 6) and any(o["op"] in ("run", "compile") for o in ops):
+                # (only once an earlier command has written the artefacts: removing a name that does not exist fails with ENOENT
+                # in any directory, which this rule would misrepresent)
+                # names cannot be removed from the project directory (a sticky directory that belongs to someone else) while the
+                # files themselves can be rewritten: nothing a compile needs
+                op["plan"]["rules"].append({"id": "nu", "call": "unlink", "pat": "*.mmm", "nth": "*", "act": "errno:EACCES"})
             if kind in ("run", "compile", "compile_dep") and not quiet and rng.chance(1, 6):
                 # the environment fails: the artefacts cannot be opened for writing, or the disk is full at the k-th write.
                 # The command may fail; if it reports success the ordinary oracle applies
@@ -427,7 +433,10 @@ def gen_text_cases(prop, tier, seed, count):
             elif kind not in ("edit", "stage"):
                 op["plan"], op["gc"] = gen_plan(rng, "o%d" % j, quiet or rng.chance(1, 2))
             ops.append(op)
+        sx = Rng(derive(seed, prop, "texthist-suffix", i))
         yield {"prop": prop, "id": "x%d" % i, "batch": "history_fault_free" if quiet else "history", "kind": "texthist",
+               # the text form's suffix is recognised whatever its letter case; the binary is `prog.mmm` all the same
+               "suffix": sx.weighted([(".transpiled.mmm", 5), (".TRANSPILED.MMM", 1)]),
                "clock": "steady" if quiet else rng.choice(CLOCKS), "start_rev": rng.range(1, 3), "ops": ops}
 
 
@@ -469,9 +478,10 @@ def run_text_case(case):
             return fail("history-text-route-wrong", "after %s: %s ended with rc=%d and printed %r; the text form was written from revision %d, which prints %r"
                         % (trace, what, p["rc"], core.text(p["out"])[-300:], r, text_expect(r)), p)
         return None
+    TEXT = "prog" + case.get("suffix", ".transpiled.mmm")
     ARGS = {"compile_text": ["compile", "prog.ms", "--output-format", "raw-text", "--quick"], "compile": ["compile", "prog.ms", "--quick"],
-            "transpile": ["transpile", "prog.transpiled.mmm"], "execute": ["execute", "prog.mmm"],
-            "execute_t": ["execute", "prog.transpiled.mmm", "--transpile"], "run": ["run", "prog.ms", "-q"], "clean": ["clean", "."]}
+            "transpile": ["transpile", TEXT], "execute": ["execute", "prog.mmm"],
+            "execute_t": ["execute", TEXT, "--transpile"], "run": ["run", "prog.ms", "-q"], "clean": ["clean", "."]}
     exists = lambda n: os.path.exists(os.path.join(world, n))
     for i, op in enumerate(case["ops"]):
         kind = op["op"]
@@ -484,7 +494,7 @@ def run_text_case(case):
         elif kind == "stage":
             # what the CLI's help tells the user to do: rename the text form before transpiling it
             if isinstance(B, tuple) and B[0] == "text":
-                os.replace(os.path.join(world, "prog.mmm"), os.path.join(world, "prog.transpiled.mmm"))
+                os.replace(os.path.join(world, "prog.mmm"), os.path.join(world, TEXT))
                 T, B = B[1], None
             else:
                 label += " (skipped)"
@@ -498,7 +508,7 @@ def run_text_case(case):
             if not p["timeout"] and (p["rc"] != 0 or core.text(p["out"]) != text_expect(S)):
                 failure = fail("history-run-wrong", "after %s: `run` ended with rc=%d and printed %r" % (trace, p["rc"], core.text(p["out"])[-300:]), p)
         elif kind == "transpile":
-            if not isinstance(T, int) or not exists("prog.transpiled.mmm"):
+            if not isinstance(T, int) or not exists(TEXT):
                 label += " (skipped)"
             else:
                 p = cmd(ARGS[kind], op)
@@ -515,7 +525,7 @@ def run_text_case(case):
                     probes["text_history_execute_of_an_older_revision_judged"] = 1
                 failure = judged(p, B[1], "`execute prog.mmm`")
         elif kind == "execute_t":
-            if not isinstance(T, int) or not exists("prog.transpiled.mmm"):
+            if not isinstance(T, int) or not exists(TEXT):
                 label += " (skipped)"
             else:
                 p = cmd(ARGS[kind], op)
@@ -527,7 +537,7 @@ def run_text_case(case):
             T, B = None, None
         elif kind == "crash":
             c = op["cmd"]
-            need = {"transpile": "prog.transpiled.mmm", "execute_t": "prog.transpiled.mmm", "execute": "prog.mmm", "compile_text": "prog.ms"}[c]
+            need = {"transpile": TEXT, "execute_t": TEXT, "execute": "prog.mmm", "compile_text": "prog.ms"}[c]
             ok_state = {"transpile": isinstance(T, int), "execute_t": isinstance(T, int), "execute": isinstance(B, tuple) and B[0] == "bin", "compile_text": True}[c]
             if not exists(need) or not ok_state:
                 label += " %s (skipped)" % c
